@@ -404,7 +404,7 @@ func flushShape(c *Check, t *Tracker, fn *ssa.Function) {
 	w := writes[0]
 	// the element emitted
 	var elem ssa.Value
-	if rc, ok := strip(w.Call.Args[1]).(*ssa.Call); ok && len(rc.Call.Args) == 2 {
+	if rc, ok := strip(w.Call.Args[len(w.Call.Args)-1]).(*ssa.Call); ok && len(rc.Call.Args) == 2 {
 		elem = rc.Call.Args[1]
 	}
 	okIdx, why := false, "emitted value is not an element of the queue"
